@@ -242,8 +242,54 @@ fn delay_pair_violation(n1: u64, t1: u64, n2: u64, t2: u64) -> Option<String> {
     None
 }
 
+// ---- boxed variants on the VM (property C12, usersum walkers): heap objects must not accumulate ---------
+fn boxed_programs() -> Vec<(&'static str, String)> {
+    let mut v = vec![];
+    let shapes = [
+        ("cons(float, List)", "type rec L = Nil | Cons(float, L)", "let a = Cons(1.0, Nil)\n let b = Cons(2.0, a)\n let c = Cons(3.0, b)"),
+        ("step(Seq, (float,float))", "type rec L = Nil | Cons(L, (float, float))", "let a = Cons(Nil, (1.0, 2.0))\n let b = Cons(a, (3.0, 4.0))"),
+        ("step((float,float), Seq)", "type rec L = Nil | Cons((float, float), L)", "let a = Cons((1.0, 2.0), Nil)\n let b = Cons((3.0, 4.0), a)\n let c = Cons((5.0, 6.0), b)"),
+        ("step((float,float,float), Seq)", "type rec L = Nil | Cons((float, float, float), L)", "let a = Cons((1.0, 2.0, 3.0), Nil)\n let b = Cons((3.0, 4.0, 5.0), a)"),
+        ("node(float, (float,float), T)", "type rec L = Nil | Cons(float, (float, float), L)", "let a = Cons(0.5, (1.0, 2.0), Nil)\n let b = Cons(0.25, (3.0, 4.0), a)"),
+        ("expr tree shared", "type rec L = Num(float) | Neg(L) | Add(L, L)", "let one = Num(1.0)\n let n = Neg(one)\n let e = Add(n, one)\n let f = Add(e, e)"),
+    ];
+    for (name, decl, body) in shapes {
+        v.push((name, format!("{decl}\nfn dsp() -> float {{\n {body}\n 1.0\n}}\n")));
+    }
+    v
+}
+fn heap_after(src: &str, n: usize) -> Result<(usize, usize), String> {
+    use mimium_lang::{Config, ExecContext};
+    let mut ctx = ExecContext::new([].into_iter(), None, Config::default());
+    ctx.prepare_machine(src).map_err(|e| e.iter().map(|x| x.get_message()).collect::<Vec<_>>().join("; "))?;
+    let machine = ctx.get_vm_mut().ok_or("no vm")?;
+    let _ = machine.execute_main();
+    for _ in 0..n { if machine.execute_entry("dsp") < 0 { return Err("dsp failed".into()); } }
+    let a = machine.heap.len();
+    for _ in 0..n { if machine.execute_entry("dsp") < 0 { return Err("dsp failed".into()); } }
+    Ok((a, machine.heap.len()))
+}
+
 fn main() {
     let args: Vec<String> = std::env::args().collect();
+    if args.get(1).map(|s| s.as_str()) == Some("boxed-search") || args.get(1).map(|s| s.as_str()) == Some("boxed-run") {
+        let only: Option<usize> = args.get(2).and_then(|s| s.parse().ok());
+        for (i, (name, src)) in boxed_programs().iter().enumerate() {
+            if let Some(o) = only { if o != i { continue; } }
+            let r = heap_after(src, 64);
+            let bad = match &r { Ok((a, b)) => a != b, Err(_) => false };
+            if args[1] == "boxed-run" {
+                println!("{} program={name:?} heap objects after 64 / 128 samples = {r:?}", if bad { "FAILS" } else { "HOLDS" });
+                return;
+            }
+            if bad {
+                println!("FOUND index={i} value={name:?} clause=release_usersum_recursive/clone_usersum_recursive: live heap objects after 64 / 128 samples = {r:?} (must be equal)");
+                return;
+            }
+        }
+        println!("NONE tried={}", boxed_programs().len());
+        return;
+    }
     if args.get(1).map(|s| s.as_str()) == Some("delay-pair") {
         let v: Vec<u64> = args[2..6].iter().map(|x| x.parse().unwrap()).collect();
         match delay_pair_violation(v[0], v[1], v[2], v[3]) {
